@@ -172,6 +172,8 @@ pub struct Run {
     pub stats: RefCell<Stats>,
     pub known: Vec<KnownFinding>,
     pub strict: bool,
+    /// multiplier on the case budgets of `search`
+    pub scale: u64,
     pub tmp: PathBuf,
     pub start: Instant,
 }
@@ -269,6 +271,7 @@ impl Run {
             stats: RefCell::new(Stats::default()),
             known: known.into_iter().filter(|k| k.property == id).collect(),
             strict: false,
+            scale: 1,
             tmp,
             start: Instant::now(),
         }
@@ -414,7 +417,7 @@ impl Run {
         S: Strategy,
         S::Value: Serialize + Debug,
     {
-        let cases = self.share(cases);
+        let cases = self.share(cases.saturating_mul(self.scale.max(1)));
         if cases == 0 {
             return true;
         }
